@@ -509,9 +509,71 @@ class Executor(Engine):
                     s2.env[name] = VList(Add(n0, Int(1)), lambda i, lst=lst, v=v, n0=n0: vite(self.ctx, Eq(i, n0), v, lst.at(i)), lst.ety)
                     outs.append((s2, Outcome("normal")))
                 return outs
+            if isinstance(s.value.func, ast.Attribute) and s.value.func.attr in ("append", "sort", "add", "extend") \
+                    and isinstance(s.value.func.value, (ast.Attribute, ast.Subscript)):
+                return self.mutate_container(s.value, st, catching)
+            if isinstance(s.value.func, ast.Attribute) and isinstance(s.value.func.value, ast.Name) and s.value.func.attr in ("sort", "add", "extend"):
+                return self.mutate_container(s.value, st, catching)
         outs = []
         for s1, v in self.cev(s.value, st, catching):
             outs.append((s1, v if isinstance(v, Outcome) else Outcome("normal")))
+        return outs
+
+    def sorted_list(self, lst, key_fn=None, reverse=False):
+        """sorted()/list.sort(): a fresh list that is a permutation of the argument (explicit index bijection)
+        and ordered by the key (str order / int order). Stability is not modelled.   [assumed built-in contract]"""
+        c = self.ctx
+        c.trusted.add("sorted()/list.sort(): result is a permutation of the input ordered by the key (stability not used)")
+        out = c.fresh("sorted", ("list", lst.ety))
+        pi = c.fun("perm", ["Int"], "Int")
+        inv = c.fun("perminv", ["Int"], "Int")
+        i = c.bvar("i", "Int")
+        rng = lambda t, n: And(Le(Int(0), t), Lt(t, n))
+        P = lambda t: app(pi, t, sort="Int")
+        Q = lambda t: app(inv, t, sort="Int")
+        c.assumptions.append(Eq(out.n, lst.n))
+        c.assumptions.append(ForAll([i], Implies(rng(i, out.n), And(rng(P(i), lst.n), Eq(Q(P(i)), i), veq(c, out.at(i), lst.at(P(i)))))))
+        c.assumptions.append(ForAll([i], Implies(rng(i, lst.n), And(rng(Q(i), out.n), Eq(P(Q(i)), i)))))
+        # ordering
+        j = c.bvar("j", "Int")
+        def keyof(v):
+            return key_fn(v) if key_fn else v
+        a, b = keyof(out.at(i)), keyof(out.at(j))
+        if isinstance(a, VStr):
+            le = app("str_le", a.t, b.t, sort="Bool") if not reverse else app("str_le", b.t, a.t, sort="Bool")
+        elif isinstance(a, VInt):
+            le = Le(a.t, b.t) if not reverse else Le(b.t, a.t)
+        elif isinstance(a, VTuple) and all(isinstance(x, VStr) for x in a.items):
+            # lexicographic order on tuples of strings: only the first component is used by the proofs
+            le = app("str_le", a.items[0].t, b.items[0].t, sort="Bool")
+        else:
+            raise Unsupported("sort key of type " + type(a).__name__)
+        c.assumptions.append(ForAll([i, j], Implies(And(rng(i, out.n), rng(j, out.n), Lt(i, j)), le)))
+        return out
+
+    def mutate_container(self, call, st, catching):
+        c = self.ctx
+        m = call.func.attr
+        target = call.func.value
+        outs = []
+        arg_states = [(st, None)] if not call.args else self.cev(call.args[0], st, catching)
+        for s1, v in arg_states:
+            if isinstance(v, Outcome):
+                outs.append((s1, v))
+                continue
+            cur = self.ev(target, s1.env, s1)
+            if isinstance(cur, VOpt):
+                cur = cur.val
+            if m == "append" and isinstance(cur, VList):
+                n0 = cur.n
+                new = VList(Add(n0, Int(1)), lambda i, cur=cur, v=v, n0=n0: vite(c, Eq(i, n0), v, cur.at(i)), cur.ety)
+            elif m == "sort" and isinstance(cur, VList) and not call.args and not call.keywords:
+                new = self.sorted_list(cur)
+            elif m == "add" and isinstance(cur, VSet):
+                new = VSet(lambda x, cur=cur, v=v: Or(veq(c, x, v), cur.has(x)), cur.ety)
+            else:
+                raise Unsupported(f".{m} on {type(cur).__name__}")
+            outs.append((self.assign_target(target, new, s1), Outcome("normal")))
         return outs
 
     def st_Assert(self, s, st, catching):
@@ -551,6 +613,11 @@ class Executor(Engine):
             # d[k] = v on a local dict or a dict field
             key = self.ev(target.slice, st.env, st)
             cont = self.ev(target.value, st.env, st)
+            if isinstance(cont, VOpt):
+                cont = cont.val
+            if isinstance(cont, VDict) and getattr(cont, "empty", False):
+                new = VDict(lambda k, key=key: veq(self.ctx, k, key), lambda k, v=v: v, ty_of(key), ty_of(v))
+                return self.assign_target(target.value, new, st)
             if isinstance(cont, VDict):
                 new = VDict(lambda k, cont=cont, key=key: Or(veq(self.ctx, k, key), cont.has(k)),
                             lambda k, cont=cont, key=key, v=v: vite(self.ctx, veq(self.ctx, k, key), v, cont.get(k)), cont.kty, cont.vty)
@@ -704,9 +771,12 @@ class Executor(Engine):
             raise Unsupported(f"loop {key} has no invariant")
         params = [a.arg for a in inv.args.args]
         env2 = {}
+        outer = self.loop_stack[-1] if self.loop_stack else {}
         for p in params:
             if p in extra:
                 env2[p] = extra[p]
+            elif p in outer:
+                env2[p] = outer[p]
             elif p in env:
                 env2[p] = env[p]
             else:
@@ -720,14 +790,82 @@ class Executor(Engine):
         finally:
             self.in_spec -= 1
 
+    def loop_key(self, s):
+        """Loops are numbered in source order within the function (stable under path splitting)."""
+        ids = getattr(self, "_loop_ids", None)
+        if ids is None or ids[0] is not self.cur_func_node:
+            order = [n for n in ast.walk(self.cur_func_node) if isinstance(n, (ast.For, ast.While))]
+            order.sort(key=lambda n: (n.lineno, n.col_offset))
+            self._loop_ids = (self.cur_func_node, {id(n): k for k, n in enumerate(order)})
+            ids = self._loop_ids
+        return (self.cur_func, ids[1][id(s)])
+
+    def eval_iterable(self, node, st, catching):
+        """The iterated collection as a list view (lists; itertools.chain of lists; dict/.items() via a key list)."""
+        c = self.ctx
+        if isinstance(node, ast.Call) and isinstance(node.func, ast.Attribute) and node.func.attr == "chain" and not node.keywords:
+            outs = [(st, None)]
+            for a in node.args:
+                nxt = []
+                for s1, acc in outs:
+                    if isinstance(acc, Outcome):
+                        nxt.append((s1, acc))
+                        continue
+                    for s2, v in self.cev(a, s1, catching):
+                        if isinstance(v, Outcome):
+                            nxt.append((s2, v))
+                        else:
+                            if isinstance(v, VOpt):
+                                v = v.val
+                            if not isinstance(v, VList):
+                                raise Unsupported("itertools.chain over non-lists")
+                            from .symex import concat_lists
+                            nxt.append((s2, v if acc is None else concat_lists(c, acc, v)))
+                outs = nxt
+            return outs
+        if isinstance(node, ast.Call) and isinstance(node.func, ast.Attribute) and node.func.attr in ("items", "keys", "values") and not node.args:
+            outs = []
+            for s1, d in self.cev(node.func.value, st, catching):
+                if isinstance(d, Outcome):
+                    outs.append((s1, d))
+                    continue
+                outs.append((s1, self.dict_as_list(d, node.func.attr)))
+            return outs
+        outs = []
+        for s1, v in self.cev(node, st, catching):
+            if isinstance(v, VDict):
+                v = self.dict_as_list(v, "keys")
+            outs.append((s1, v))
+        return outs
+
+    def dict_as_list(self, d, what):
+        """Iteration order of a dict: some list of its distinct keys (order unspecified = arbitrary but fixed)."""
+        c = self.ctx
+        if not isinstance(d, VDict):
+            raise Unsupported("iteration over .items() of " + type(d).__name__)
+        keys = c.fresh("keys", ("list", d.kty))
+        i, j = c.bvar("i", "Int"), c.bvar("j", "Int")
+        rng = lambda t: And(Le(Int(0), t), Lt(t, keys.n))
+        c.assumptions.append(ForAll([i], Implies(rng(i), d.has(keys.at(i)))))
+        c.assumptions.append(ForAll([i, j], Implies(And(rng(i), rng(j), Not(Eq(i, j))), Not(veq(c, keys.at(i), keys.at(j))))))
+        k = c.bvar("k", c.sort(d.kty))
+        kv = c.wrap(k, d.kty)
+        idx = c.fun("keyidx", [c.sort(d.kty)], "Int")
+        ik = app(idx, k, sort="Int")
+        c.assumptions.append(ForAll([k], Implies(d.has(kv), And(rng(ik), veq(c, keys.at(ik), kv)))))
+        if what == "keys":
+            return keys
+        if what == "values":
+            return VList(keys.n, lambda t: d.get(keys.at(t)), d.vty)
+        return VList(keys.n, lambda t: VTuple([keys.at(t), d.get(keys.at(t))]), ("tuple", (d.kty, d.vty), None))
+
     def st_For(self, s, st, catching):
         c = self.ctx
         if s.orelse:
             raise Unsupported("for/else")
-        key = (self.cur_func, self.loop_counter)
-        self.loop_counter += 1
+        key = self.loop_key(s)
         outs = []
-        for s0, xs in self.cev(s.iter, st, catching):
+        for s0, xs in self.eval_iterable(s.iter, st, catching):
             if isinstance(xs, Outcome):
                 outs.append((s0, xs))
                 continue
@@ -746,7 +884,12 @@ class Executor(Engine):
             h = h.assume(And(Le(Int(0), i), Lt(i, xs.n)))
             h = h.assume(self.invariant(key, h.env, h, {"_i": VInt(i), "_xs": xs}))
             h = self.assign_target(s.target, xs.at(i), h)
-            for s1, o in self.run_block(s.body, h, catching):
+            self.loop_stack.append({"_outer_i": VInt(i), "_outer_xs": xs})
+            try:
+                body_outs = self.run_block(s.body, h, catching)
+            finally:
+                self.loop_stack.pop()
+            for s1, o in body_outs:
                 if o.kind in ("normal", "continue"):
                     c.oblige(f"{w}:loop{key[1]}:invariant preserved", "invariant-step", s1.pc,
                              self.invariant(key, s1.env, s1, {"_i": VInt(Add(i, Int(1))), "_xs": xs}), w)
